@@ -154,7 +154,7 @@ func CheckC09(e *Env) (int, error) {
 	eng := &c09Engine{e, src}
 	thorough := e.Tier == "thorough"
 	allLangs := []int{0, 1, 2, 3, 4, 5, 6, 7, 8, 9, -1, 10, 100, 1 << 40}
-	allStates := []string{"work", "frag", "eof0", "err0", "stall"}
+	allStates := []string{"work", "frag", "eof0", "err0", "stall", "afterfail"}
 	sd := func(name string, i int) uint64 { return plan.Derive(e.Seed, "C09/"+name, uint64(i)) }
 	var jobs []c09Job
 	const span = 4096
@@ -187,13 +187,33 @@ func CheckC09(e *Env) (int, error) {
 			extSet[v] = true
 		}
 	}
+	// arithmetic-wrap classes: counts congruent to an accepted count modulo a power of two
+	// (truncation to a narrower type; length*32/3, length*4/3, length+length/3 wrapping)
+	var small []int
+	for _, m := range []int{12, 15, 18, 21, 24} {
+		for sft := uint(8); sft <= 63; sft++ {
+			for _, j := range []int{1, -1, 3, 5} {
+				v := int(int64(m) + int64(j)<<sft) // wraps by design
+				if v >= -(1<<22) && v <= 1<<22 {
+					small = append(small, v)
+				} else {
+					extSet[v] = true
+				}
+			}
+		}
+		for sft := uint(20); sft <= 62; sft++ { // 3*2^s/4-type solutions of c + c/3 == m (mod 2^64)
+			extSet[int(int64(3)<<(sft-2)+int64(m))] = true
+			extSet[int(-(int64(3)<<(sft-2))+int64(m))] = true
+		}
+	}
+	jobs = append(jobs, c09Job{Kind: "counts", Lo: 1, Hi: 0, List: small, Langs: []int{2, 5, 9, -1}, States: allStates, Seed: sd("wrapsmall", 0)})
 	var ext []int
 	for v := range extSet {
 		ext = append(ext, v)
 	}
 	sort.Ints(ext)
 	for i, v := range ext {
-		st := []string{"work", "eof0"}[i%2]
+		st := []string{"work", "eof0", "afterfail"}[i%3]
 		jobs = append(jobs, c09Job{Kind: "explicit", capped: true, Cases: []c09Case{{Kind: "count", Count: v, Lang: []int{2, 5, 9, -1}[i%4], State: st, Seed: sd("ext", i)}}})
 	}
 
@@ -275,7 +295,7 @@ func CheckC09(e *Env) (int, error) {
 	cov := map[string]interface{}{
 		"evaluations":         tot.Cases,
 		"distinct_nontrivial": tot.DistinctNT,
-		"rule": "NewMnemonic half: every count in the range x 14 Language values (10 supported, 4 unsupported) x 5 device states (working, fragmenting, EOF at byte 0, error at byte 0, stall-then-work), plus the extremes of int one capped process each; NewMnemonicByEntropy half: nil and every length in the range plus 65536 and 1 MiB. Non-trivial: a size a bound/modulus slip would treat differently (multiples of 3 resp. 4, sizes within 3 resp. 4 of the accepted window, negatives, > 2^20, nil); distinct by (size, device state) resp. (length, nil).",
+		"rule": "NewMnemonic half: every count in the range x 14 Language values (10 supported, 4 unsupported) x 6 device states (working, fragmenting, EOF at byte 0, error at byte 0, stall-then-work, working-after-a-call-whose-source-failed-part-way), plus the extremes of int and every count congruent to an accepted count modulo 2^8..2^63 (arithmetic-wrap classes) one capped process each; NewMnemonicByEntropy half: nil and every length in the range plus 65536 and 1 MiB. Non-trivial: a size a bound/modulus slip would treat differently (multiples of 3 resp. 4, sizes within 3 resp. 4 of the accepted window, negatives, > 2^20, nil); distinct by (size, device state) resp. (length, nil).",
 		"exhaustive":          false,
 		"samples":             samples,
 		"runs":                tot.Cases,
